@@ -221,6 +221,11 @@ Theorem walked_hardlink_check : forall t,
   wf_tree t -> ino_consistent t -> inode_coherent t -> hardlink_check (walk t) = None.
 Proof. exact (walked_hardlink_check_proof (fun _ => [])). Qed.
 
+Theorem walk_passes_receiver_validators : forall t,
+  wf_tree t -> ino_consistent t -> inode_coherent t ->
+  run_validator (map vitem_of (walk t)) = None /\ hardlink_check (walk t) = None.
+Proof. exact (walk_passes_validators_proof (fun _ => [])). Qed.
+
 Theorem walked_source_accepts_iff : forall t,
   wf_tree t -> ino_consistent t -> inode_coherent t -> forall sel,
   listing_dependents (walk t) = false ->
@@ -332,6 +337,7 @@ Print Assumptions canon_recv_hardlink_check.
 Print Assumptions wf_source_accepts_iff.
 Print Assumptions walk_ok_paths.
 Print Assumptions walked_hardlink_check.
+Print Assumptions walk_passes_receiver_validators.
 Print Assumptions walked_source_accepts_iff.
 Print Assumptions registered_content.
 Print Assumptions projection_wf.
